@@ -29,6 +29,13 @@ typedef pl::TrivAssign<11> NT;
 typedef pl::TrivAssign<12> TH;
 typedef pl::TrivAssign<13> Big;
 static_assert(std::is_trivially_move_assignable<NT>::value && std::is_trivially_copy_assignable<NT>::value && !std::is_trivially_move_constructible<NT>::value && !std::is_trivially_destructible<NT>::value, "payload shape");
+#elif defined(ALTM)
+// every alternative has a NOTHROW move assignment, but TH's move (and copy) constructor can throw: the variant's move assignment
+// between different alternatives move-constructs, so it must not be noexcept and a throw there must leave it valueless
+typedef pl::Tracked<11, 0,  true,  false, false, false> NT;
+typedef pl::Tracked<12, 0,  false, true,  true,  true, alignof(void*), false, true> TH;
+typedef pl::Tracked<13, 16, true,  false, false, false> Big;
+static_assert(std::is_nothrow_move_assignable<TH>::value && !std::is_nothrow_move_constructible<TH>::value, "payload shape");
 #else
 //                    TAG PAD NT_MOVE TH_COPY TH_MOVE TH_ASSIGN
 typedef pl::Tracked<11, 0,  true,  false, false, false> NT;    // nothrow-movable, tracked
@@ -505,6 +512,53 @@ static void build_ops(HX& hx, const std::vector<int>& values)
     }
 }
 
+// alternative sets that contain BOTH closure flavours of one type: every accessor must agree with the alternative that is held
+template <class CV>
+static long xget_both_flavours(const char* set)
+{
+    long n = 0;
+    int x = 5;
+    const std::string S = std::string("C05/xget/closure-set{") + set + "}/";
+    auto thrown = [](auto&& f) { try { f(); } catch (const xtl::bad_variant_access&) { return true; } return false; };
+    {
+        // holds the const closure
+        CV v(xtl::closure(static_cast<const int&>(x)));
+        const CV& cv = v;
+        if (!xtl::holds_alternative<xtl::xclosure_wrapper<const int&>>(v)) vf::violation(S + "holds-const/holds_alternative", "the variant does not report the const closure it was built from", {"--xget-only"});
+        if (thrown([&] { (void)xtl::xget<const int&>(v); })) vf::violation(S + "holds-const/xget<const T&>/throws", "xget<const int&>(variant&) throws although the variant holds xclosure_wrapper<const int&>", {"--xget-only"});
+        else if (&xtl::xget<const int&>(v) != &x) vf::violation(S + "holds-const/xget<const T&>/referent", "xget<const int&> does not designate the wrapped lvalue", {"--xget-only"});
+        if (thrown([&] { (void)xtl::xget<const int&>(cv); })) vf::violation(S + "holds-const/xget<const T&>(const)/throws", "xget<const int&>(const variant&) throws although the variant holds xclosure_wrapper<const int&>", {"--xget-only"});
+        else if (&xtl::xget<const int&>(cv) != &x) vf::violation(S + "holds-const/xget<const T&>(const)/referent", "xget<const int&>(const variant&) does not designate the wrapped lvalue", {"--xget-only"});
+        { CV t(v); if (thrown([&] { (void)xtl::xget<const int&>(std::move(t)); })) vf::violation(S + "holds-const/xget<const T&>(rvalue)/throws", "xget<const int&>(variant&&) throws although the variant holds xclosure_wrapper<const int&>", {"--xget-only"}); }
+        if (!thrown([&] { (void)xtl::xget<int&>(v); })) vf::violation(S + "holds-const/xget<T&>/no-throw", "xget<int&> succeeds although the variant holds the CONST closure (another alternative)", {"--xget-only"});
+        if (!thrown([&] { (void)xtl::xget<long>(v); })) vf::violation(S + "holds-const/xget<long>/no-throw", "xget<long> succeeds although the variant holds a closure", {"--xget-only"});
+        n += 7;
+    }
+    {
+        // holds the mutable closure
+        CV v(xtl::closure(x));
+        const CV& cv = v;
+        if (!xtl::holds_alternative<xtl::xclosure_wrapper<int&>>(v)) vf::violation(S + "holds-mutable/holds_alternative", "the variant does not report the closure it was built from", {"--xget-only"});
+        if (thrown([&] { (void)xtl::xget<int&>(v); })) vf::violation(S + "holds-mutable/xget<T&>/throws", "xget<int&> throws although the variant holds xclosure_wrapper<int&>", {"--xget-only"});
+        else if (&xtl::xget<int&>(v) != &x) vf::violation(S + "holds-mutable/xget<T&>/referent", "xget<int&> does not designate the wrapped lvalue", {"--xget-only"});
+        if (thrown([&] { (void)xtl::xget<int&>(cv); })) vf::violation(S + "holds-mutable/xget<T&>(const)/throws", "xget<int&>(const variant&) throws although the variant holds xclosure_wrapper<int&>", {"--xget-only"});
+        else if (&xtl::xget<int&>(cv) != &x) vf::violation(S + "holds-mutable/xget<T&>(const)/referent", "xget<int&>(const variant&) does not designate the wrapped lvalue", {"--xget-only"});
+        xtl::xget<int&>(v) = 11;
+        if (x != 11) vf::violation(S + "holds-mutable/write-through", "writing through xget<int&> does not reach the referent", {"--xget-only"});
+        if (!thrown([&] { (void)xtl::xget<long>(v); })) vf::violation(S + "holds-mutable/xget<long>/no-throw", "xget<long> succeeds although the variant holds a closure", {"--xget-only"});
+        n += 6;
+        // (xget<const T&> on a variant that holds the mutable closure while the const closure is also an alternative is not judged:
+        //  the statement only fixes accessors against the alternative that is held)
+    }
+    {
+        CV v(7L);
+        if (xtl::xget<long>(v) != 7) vf::violation(S + "holds-long/xget<long>", "xget<long> wrong", {"--xget-only"});
+        if (!thrown([&] { (void)xtl::xget<int&>(v); }) || !thrown([&] { (void)xtl::xget<const int&>(v); })) vf::violation(S + "holds-long/xget<closure>/no-throw", "xget of a closure succeeds although the variant holds long", {"--xget-only"});
+        n += 3;
+    }
+    return n;
+}
+
 // closure-aware xget (stateless part of the statement): value, T& and const T& closures over xclosure_wrapper alternatives
 static void check_xget_closures()
 {
@@ -514,34 +568,37 @@ static void check_xget_closures()
     long checks = 0;
     {
         CV v(xtl::closure(x));
-        if (&xtl::xget<int&>(v) != &x) vf::violation("C05/xget/closure/int&", "xget<int&> does not designate the wrapped lvalue");
-        if (&xtl::xget<const int&>(v) != &x) vf::violation("C05/xget/closure/const-int&-from-int&", "xget<const int&> on a variant holding xclosure_wrapper<int&> does not designate the wrapped lvalue");
+        if (&xtl::xget<int&>(v) != &x) vf::violation("C05/xget/closure/int&", "xget<int&> does not designate the wrapped lvalue", {"--xget-only"});
+        if (&xtl::xget<const int&>(v) != &x) vf::violation("C05/xget/closure/const-int&-from-int&", "xget<const int&> on a variant holding xclosure_wrapper<int&> does not designate the wrapped lvalue", {"--xget-only"});
         const CV& cv = v;
-        if (&xtl::xget<const int&>(cv) != &x) vf::violation("C05/xget/closure/const-variant", "xget<const int&>(const variant) wrong");
+        if (&xtl::xget<const int&>(cv) != &x) vf::violation("C05/xget/closure/const-variant", "xget<const int&>(const variant) wrong", {"--xget-only"});
         xtl::xget<int&>(v) = 9;
-        if (x != 9) vf::violation("C05/xget/closure/write-through", "writing through xget<int&> does not reach the referent");
+        if (x != 9) vf::violation("C05/xget/closure/write-through", "writing through xget<int&> does not reach the referent", {"--xget-only"});
         bool threw = false;
         try { (void)xtl::xget<const double&>(v); } catch (const xtl::bad_variant_access&) { threw = true; }
-        if (!threw) vf::violation("C05/xget/closure/other-alternative", "xget of another alternative did not throw bad_variant_access");
+        if (!threw) vf::violation("C05/xget/closure/other-alternative", "xget of another alternative did not throw bad_variant_access", {"--xget-only"});
         threw = false;
         try { (void)xtl::xget<long>(v); } catch (const xtl::bad_variant_access&) { threw = true; }
-        if (!threw) vf::violation("C05/xget/closure/other-alternative", "xget<long> did not throw");
+        if (!threw) vf::violation("C05/xget/closure/other-alternative", "xget<long> did not throw", {"--xget-only"});
         checks += 6;
     }
     {
         CV v(xtl::closure(static_cast<const double&>(d)));
-        if (&xtl::xget<const double&>(v) != &d) vf::violation("C05/xget/closure/const-double&", "xget<const double&> does not designate the wrapped lvalue");
-        if (&xtl::xget<const double&>(std::move(v)) != &d) vf::violation("C05/xget/closure/rvalue", "xget<const double&>(variant&&) wrong");
+        if (&xtl::xget<const double&>(v) != &d) vf::violation("C05/xget/closure/const-double&", "xget<const double&> does not designate the wrapped lvalue", {"--xget-only"});
+        if (&xtl::xget<const double&>(std::move(v)) != &d) vf::violation("C05/xget/closure/rvalue", "xget<const double&>(variant&&) wrong", {"--xget-only"});
         bool threw = false;
         try { (void)xtl::xget<int&>(v); } catch (const xtl::bad_variant_access&) { threw = true; }
-        if (!threw) vf::violation("C05/xget/closure/other-alternative", "xget<int&> of a variant holding the double closure did not throw");
+        if (!threw) vf::violation("C05/xget/closure/other-alternative", "xget<int&> of a variant holding the double closure did not throw", {"--xget-only"});
         checks += 3;
     }
     {
         CV v(3L);
-        if (xtl::xget<long>(v) != 3) vf::violation("C05/xget/value", "xget<long> wrong");
+        if (xtl::xget<long>(v) != 3) vf::violation("C05/xget/value", "xget<long> wrong", {"--xget-only"});
         checks += 1;
     }
+    checks += xget_both_flavours<xtl::variant<xtl::xclosure_wrapper<int&>, xtl::xclosure_wrapper<const int&>, long>>("T&,const T&,long");
+    checks += xget_both_flavours<xtl::variant<xtl::xclosure_wrapper<const int&>, xtl::xclosure_wrapper<int&>, long>>("const T&,T&,long");
+    checks += xget_both_flavours<xtl::variant<long, xtl::xclosure_wrapper<const int&>, xtl::xclosure_wrapper<double&>, xtl::xclosure_wrapper<int&>>>("long,const T&,U&,T&");
     vf::stat("xget_closure_checks", checks);
 }
 
@@ -554,6 +611,8 @@ int main(int argc, char** argv)
         "altT";
 #elif defined(ALTA)
         "altA";
+#elif defined(ALTM)
+        "altM";
 #elif defined(ALT6)
         "alt6";
 #else
@@ -570,6 +629,7 @@ int main(int argc, char** argv)
         else if (a == "--one-value") { values = {1}; inst += "-1v"; }
         else if (a == "--max-states") max_states = atoll(argv[++i]);
         else if (a == "--deadline") deadline = atof(argv[++i]);
+        else if (a == "--xget-only") { check_xget_closures(); vf::done(); return 0; }
         else if (a == "--replay") { do_replay = true; inst = argv[++i]; replay = argv[++i]; if (inst.find("-1v") != std::string::npos) values = {1}; }
     }
     HX hx;
